@@ -126,6 +126,9 @@ def run(tier, seed, mutant=None, only_validate=False):
         cfgs += [{"kind": "timed_window", "interval": "2d", "cons": ["sync"], "max_elems": 3}]
         cfgs += [{"kind": "timed_window", "interval": 2, "cons": ["future"], "max_elems": ne, "faults": True}]
         cfgs += [{"kind": "timed_window", "interval": 2, "cons": ["future"], "max_elems": ne, "feeder": "plain"}]
+        # the input is disconnected and connected again: what has been accepted is still owed, and the window goes on ticking
+        cfgs += [{"kind": "timed_window", "interval": 2, "cons": [c], "max_elems": ne, "disconnect": True, "reconnect": True}
+                 for c in ("future", "sync")]
         cfgs += [{"kind": "timed_window", "interval": 2, "cons": ["future"], "max_elems": ne, "falsy": {"none": 2, "zero": 3}}]
         if tier != "quick":
             cfgs += [{"kind": "timed_window", "interval": 3, "cons": ["future"], "max_elems": ne},
